@@ -354,6 +354,10 @@ func cmdCheck(argv []string) int {
 		replayDir = d
 	}
 	os.MkdirAll(replayDir, 0755)
+	if len(confirmed) > 8 {
+		fmt.Printf("(%d reproduced violations; the first 8 are written out)\n", len(confirmed))
+		confirmed = confirmed[:8]
+	}
 	for i, v := range confirmed {
 		p := filepath.Join(replayDir, fmt.Sprintf("%s-%d.json", id, i))
 		e, a := entryOf(v.Harness)
